@@ -47,6 +47,8 @@ package cleaner
 //@   ensures others:  forall c string :: c != file.ContentId ==> world.hasRec[c] == old(world.hasRec[c])
 //@ iface dirRepository.Add
 //@   params ctx, dir
+//@   modifies world.dirAdds, world.addName, world.addRoot
+//@   ensures rec: world.dirAdds == old(world.dirAdds) + 1 && world.addName == dir.Name && world.addRoot == dir.Root
 //@ iface dbProvider.GC
 //@ iface sender.Send
 //@   params ctx, event
@@ -54,7 +56,10 @@ package cleaner
 // ---- deleteFile: content, then content record, then version record; only this version's ----
 //@ func (*UseCase).deleteFile
 //@   requires deps:    depsOk(u)
-//@   modifies world.hasBlob, world.hasCRec, world.hasRec
+//@   modifies world.hasBlob, world.hasCRec, world.hasRec, world.dirAdds, world.addName, world.addRoot
+// the directory that lost an entry is handed back to the directory registry, every time (it has room again)
+//@   ensures  reoffer: result == nil && old(world.hasCRec[file.ContentId]) ==> world.dirAdds == old(world.dirAdds) + 1 &&
+//@                        world.addName == pathBase(world.cParent[file.ContentId]) && world.addRoot == pathDir(world.cParent[file.ContentId])
 //@   ensures  gone:    result == nil && old(world.hasCRec[file.ContentId]) ==>
 //@                        !world.hasCRec[file.ContentId] && !world.hasRec[file.ContentId] && !world.hasBlob[pathJoin(world.cParent[file.ContentId], file.ContentId)]
 //@   ensures  norec:   result == nil ==> !world.hasCRec[file.ContentId]
@@ -70,7 +75,7 @@ package cleaner
 //@ pure func listed(files []model.File, c string) bool = exists i int :: 0 <= i && i < len(files) && files[i].ContentId == c
 //@ func (*UseCase).DeleteFiles
 //@   requires deps:    depsOk(u)
-//@   modifies world.hasBlob, world.hasCRec, world.hasRec
+//@   modifies world.hasBlob, world.hasCRec, world.hasRec, world.dirAdds, world.addName, world.addRoot
 //@   ensures  crecs:   forall c string :: !listed(files, c) ==> world.hasCRec[c] == old(world.hasCRec[c])
 //@   ensures  recs:    forall c string :: !listed(files, c) ==> world.hasRec[c] == old(world.hasRec[c])
 //@   ensures  blobs:   forall p string :: (forall i int :: 0 <= i && i < len(files) ==> p != pathJoin(world.cParent[files[i].ContentId], files[i].ContentId)) ==>
@@ -92,4 +97,4 @@ package cleaner
 // number when none is open ----
 //@ func (*UseCase).DeleteOld
 //@   requires deps:    depsOk(u)
-//@   modifies world.hasBlob, world.hasCRec, world.hasRec, cell[uint64]
+//@   modifies world.hasBlob, world.hasCRec, world.hasRec, cell[uint64], world.dirAdds, world.addName, world.addRoot
